@@ -161,7 +161,7 @@ pub fn run_mut(fam: &Fam, case: &MutCase) -> Verdict {
             drop(h.stdin);
             let status = h.child.wait().ok();
             let signal = status.and_then(|s| s.signal());
-            let (target, desc) = describe_target(fam, case);
+            let (target, class, desc) = describe_target(fam, case);
             let (law, what) = match signal {
                 Some(libc::SIGVTALRM) => ("hang", format!("used more than {} s of CPU on one case", CPU_LIMIT_S)),
                 Some(libc::SIGABRT) => ("abort", "aborted (SIGABRT: failed allocation / abort)".to_string()),
@@ -173,6 +173,8 @@ pub fn run_mut(fam: &Fam, case: &MutCase) -> Verdict {
                 format!("the process decoding the mutated stream {} [mutation hit {}: {}]", what, target, desc),
             );
             v.class("out:process-died");
+            v.class(class);
+            v.class(intern(format!("target:{}", target)));
             v.nontrivial();
         }
         v
